@@ -885,9 +885,9 @@ class PPG3204():
         else:
             amplitude = np.array(amplitude)
 
-        if amplitude.any() < self.AMPLITUDE_MIN or amplitude.any() > self.AMPLITUDE_MAX:
+        if (amplitude < self.AMPLITUDE_MIN).any() or (amplitude > self.AMPLITUDE_MAX).any():
             amplitude = amplitude.clip(self.AMPLITUDE_MIN, self.AMPLITUDE_MAX) 
-            msg = f'The amplitude is out of the range of the PPG3204. Setting to the limits {amplitude:.2f}.'
+            msg = f'The amplitude is out of the range of the PPG3204. Setting to the limits {amplitude}.'
             warnings.warn(msg)
         
         for ch, amp in zip(CHs, amplitude):
